@@ -407,7 +407,7 @@ func c15Order(c *core.Ctx) {
 			"the checkRes queued for an element has pos = the index of that element in the iteration over the batch",
 			"the position recorded with a check result is not the index of its event in the batch: the ordered inserter reassembles the batch in another order")
 		// the inserter task(s): literals of Enqueue that call process()
-		nOrdered := 0
+		nOrdered, nOther := 0, 0
 		for _, l := range c15Funcs(p) {
 			if c15Root(l) != enq || len(l.CallsTo(procName)) == 0 {
 				continue
@@ -418,6 +418,9 @@ func c15Order(c *core.Ctx) {
 			var slots *types.Var // the results slice of the ordered mode
 			for _, cs := range l.CallsTo(procName) {
 				if g, _ := l.GuardedBy(cs.Pt, isOrdered); !g || len(cs.Call.Args) != 3 {
+					if !g {
+						nOther++
+					}
 					continue
 				}
 				nOrdered++
@@ -481,6 +484,8 @@ func c15Order(c *core.Ctx) {
 			}
 		}
 		c.ExpectAtLeast("process() calls of the ordered mode", nOrdered, 1)
+		// the other role: results of a batch that is not ordered are handed on as well
+		c.ExpectAtLeast("process() calls reachable when the batch is not ordered", nOther, 1)
 	})
 }
 
